@@ -26,6 +26,8 @@ def judge(ck, prop, trace, what, spec="MeshTrace"):
     for v in viols:
         ev = json.loads(lines[v["viol"] - 1])
         c = ev.get("case", {})
+        if not isinstance(c, dict):
+            c = {"case": c, "ver": ev.get("ver")}
         key = (c.get("file"), c.get("shape"), c.get("ver"), c.get("skinned"), ev.get("op"), tuple(sorted(v["clauses"])))
         if key in seen:
             continue
